@@ -282,9 +282,12 @@ func fill(v reflect.Value, s *Schema, r *vh.Rand, depth int, goName string) {
 			}
 			fill(fv, f.T, r, depth+1, f.Go)
 		}
+		if v.Type().Name() == "Pool" && strings.HasSuffix(v.Type().PkgPath(), "chaincore/node") {
+			poolInvariant(v)
+		}
 		// a node/client identity is derived from its public key (SetPublicKey recomputes it)
-		if pk := v.FieldByName("PublicKey"); pk.IsValid() && pk.Kind() == reflect.String && pk.String() == validPK {
-			if id := v.FieldByName("ID"); id.IsValid() && id.Kind() == reflect.String {
+		if pk := safeField(v, "PublicKey"); pk.IsValid() && pk.Kind() == reflect.String && pk.String() == validPK {
+			if id := safeField(v, "ID"); id.IsValid() && id.Kind() == reflect.String {
 				b, _ := hex.DecodeString(validPK)
 				settable(id).SetString(encryption.Hash(b))
 			}
@@ -295,6 +298,54 @@ func fill(v reflect.Value, s *Schema, r *vh.Rand, depth int, goName string) {
 	default:
 		panic("kind " + s.K)
 	}
+}
+
+// poolInvariant makes a generated node.Pool a value a pool can hold: distinct valid public keys,
+// node id = hash of the key, SetIndex = position in id order (Pool.UnmarshalMsg recomputes
+// both through SetPublicKey and computeNodePositions).
+func poolInvariant(v reflect.Value) {
+	m := v.FieldByName("NodesMap")
+	if !m.IsValid() || m.Kind() != reflect.Map {
+		return
+	}
+	var keys []string
+	for _, k := range m.MapKeys() {
+		keys = append(keys, k.String())
+	}
+	sort.Strings(keys)
+	type ent struct {
+		id string
+		n  reflect.Value
+	}
+	var es []ent
+	for i, k := range keys {
+		n := m.MapIndex(reflect.ValueOf(k).Convert(m.Type().Key()))
+		if n.IsNil() {
+			continue
+		}
+		pk := validPKs[i%len(validPKs)]
+		b, _ := hex.DecodeString(pk)
+		id := encryption.Hash(b)
+		settable(safeField(n.Elem(), "PublicKey")).SetString(pk)
+		settable(safeField(n.Elem(), "ID")).SetString(id)
+		es = append(es, ent{id, n})
+	}
+	sort.SliceStable(es, func(i, j int) bool { return es[i].id < es[j].id })
+	for i, e := range es {
+		settable(e.n.Elem().FieldByName("SetIndex")).SetInt(int64(i))
+	}
+}
+
+var validPKs []string
+
+// safeField is FieldByName without the panic on a nil embedded pointer.
+func safeField(v reflect.Value, name string) (f reflect.Value) {
+	defer func() {
+		if recover() != nil {
+			f = reflect.Value{}
+		}
+	}()
+	return v.FieldByName(name)
 }
 
 func newVersion(s *Schema, tag string) entitywrapper.EntityI {
@@ -591,6 +642,7 @@ var entries map[string]*Entry
 func main() {
 	o := vh.ParseFlags()
 	rep := vh.NewReport("msgpcodec", "C08", o)
+	rep.CaseInputs = []interface{}{}
 	rep.Rule = "for every schema of Gen/MsgpSchema.v: random values of the real Go type (ints/uints at every msgpack size-class boundary, strings of length 0/31/32/255/256/..., " +
 		"slices and maps of length 0/15/16/17, nil and non-nil pointers, nil and empty containers, every registered entitywrapper version), marshalled, unmarshalled and marshalled again; " +
 		"mutated inputs (truncation, trailing bytes, permuted/dropped/repeated/unknown keys, bin keys, replaced values) decoded; migrations v(n)->v(n+1) of every wrapper; " +
@@ -628,7 +680,36 @@ func main() {
 		panic(err)
 	}
 	validPK = sch.GetPublicKey()
+	for i := 0; i < 20; i++ {
+		k := encryption.NewBLS0ChainScheme()
+		if err := k.GenerateKeys(); err != nil {
+			panic(err)
+		}
+		validPKs = append(validPKs, k.GetPublicKey())
+	}
 
+	// the smallest failing value per signature is reported
+	type candT struct {
+		size int
+		desc string
+		in   input
+	}
+	cand := map[string]candT{}
+	viol := func(sig, desc string, in input, size int) {
+		if c, ok := cand[sig]; !ok || size < c.size {
+			cand[sig] = candT{size, desc, in}
+		}
+	}
+	flush = func() {
+		var sigs []string
+		for s := range cand {
+			sigs = append(sigs, s)
+		}
+		sort.Strings(sigs)
+		for _, s := range sigs {
+			rep.Violate(s, cand[s].desc, cand[s].in)
+		}
+	}
 	addCase := func(term string, in input) {
 		cf.Add(term)
 		rep.CaseInputs = append(rep.CaseInputs, in)
@@ -679,12 +760,12 @@ func main() {
 					}
 					fmt.Fprintf(os.Stderr, "DIFF %s at %d:\n A: %s\n B: %s\n", name, i, r1[lo:min(i+200, len(r1))], r2[lo:min(i+200, len(r2))])
 				}
-				rep.Violate("C08:round-trip-loses-data"+sfx, name+": decoded value differs from the encoded one", in)
+				viol("C08:round-trip-loses-data"+sfx, name+": decoded value differs from the encoded one", in, len(b1))
 				rep.Count("round-trip-loses-data" + sfx)
 			}
 			b2, err := safeMarshal(c2)
 			if (err != nil || !bytes.Equal(b1, b2)) && r1 == r2 {
-				rep.Violate("C08:re-encoding-differs"+sfx, name+": bytes of the decoded value differ from the original bytes", in)
+				viol("C08:re-encoding-differs"+sfx, name+": bytes of the decoded value differ from the original bytes", in, len(b1))
 			}
 			if err == nil {
 				again = vh.Some(vh.Bytes(b2))
@@ -935,7 +1016,10 @@ func doStateDec(rep *vh.Report, in input, addCase func(string, input)) {
 	addCase(fmt.Sprintf("McStateDec %s %s", vh.Bytes(b), decT), in)
 }
 
+var flush = func() {}
+
 func finish(rep *vh.Report, cf *vh.CasesFile, o vh.Opts) {
+	flush()
 	files, err := cf.Write(o.Out, "C08")
 	if err != nil {
 		panic(err)
